@@ -122,23 +122,28 @@ fn vertex_defect(tracks: Vec<Track>) -> Option<String> {
 // the class of the open finding `tinyphi` (F9): a CHECKED RECOGNISER on the point set
 // ------------------------------------------------------------------------------------------------
 // MEASURED on the unchanged implementation (Track::try_from on 3, 14, 17 and 20 near-collinear points, radii on a grid
-// and random in 0.105..0.2 m, phi_i = phi0 + s*u_i with u_i uniform in [-1, 1], s from 1e-300 to 1e-19 in steps of
-// 1/4 decade, phi0 in {0, 1e-250, 1e-160, 1e-145, 1e-135 .. 1e-100, 1e-30, 0.3, pi/2, pi, -2.5}, z equal / steps of
-// 1e-300 / steps of 0.1 mm .. 1 cm; 2.6e5 fits).  Every failure is the SAME panic, `found NaN in
+// and random in 0.105..0.2 m, phi_i = phi0 + s*u_i with u_i uniform in [-1, 1], s from 1e-300 to 1e-19 rad in steps of
+// 1/2 and 1/4 decade, phi0 in {0, 1e-250, 1e-160, 1e-145, 1e-135, 1e-130, 1e-128 .. 1e-100, 1e-30, 0.3, pi/2, pi, -2.5},
+// z equal / steps of 1e-300 m / steps of 0.1 mm .. 1 cm; 3.5e5 fits).  Every failure is the SAME panic, `found NaN in
 // track_fitting::cost_function` (track_fitting.rs:265), raised either while NelderMead::init evaluates the initial
-// simplex or later from NelderMead::next_iter.  What decides is the radius R of the circle through the three template
-// points (the initial guess of the fit), whatever produced it -- an angular scatter s around phi = 0, or the rounding of
-// r*cos(phi), r*sin(phi) for a common phi <= 1e-122:
-//   equal z (or z steps of 1e-300 m):  no failure for R < 10^137.5 m (1.6e4 fits with 1e130 <= R < 1e137.5 m);
-//                                      99.9 % fail for R >= 1e138 m; a few fits survive up to R = 1e147 m
-//   unequal z:                         no failure for R < 1e152 m except 3 of 8600 at R = 10^138.7..1e140 m;
-//                                      all fail for R >= 10^153.4 m
-//   in terms of the angular scatter:   equal z fails for s <= 10^-137.5 rad (always for s <= 1e-140), unequal z for
-//                                      s <= 10^-154.5 rad; nothing fails for s >= 1e-137 rad or for |phi0| >= 1e-100
+// simplex (corpus witness at 1e-165 rad) or later from NelderMead::next_iter (reviewer's witness at 1e-146 rad).
+// What decides is the radius R of the circle through the three template points (the initial guess of the fit),
+// whatever produced it -- an angular scatter s around phi = 0, or the rounding of r*cos(phi), r*sin(phi) for a common
+// tiny phi (phi0 = 1e-130 with s = 0 fails like s = 1e-147):
+//   equal z (or z steps of 1e-300 m):  no failure among 2.0e4 fits with 1e130 <= R < 10^137.5 m; the smallest failing
+//                                      radius is 10^137.5 m; 99.9 % fail for 1e138 <= R < 1e148 m (a few fits survive,
+//                                      up to R = 1e147 m); all fail above
+//   unequal z:                         3 failures among 8.6e3 fits with 1e138 <= R < 1e144 m (14 points, at R =
+//                                      10^138.7 .. 1e140 m), none among 4.0e3 with 1e144 <= R < 1e152 m; all fail for
+//                                      R >= 10^153.4 m
+//   in terms of the angular scatter    equal z fails for s <= 10^-137.5 rad (all but about 1 in 300 for s <= 1e-140),
+//   (phi0 = 0):                        unequal z for s <= 10^-154.5 rad; nothing fails for s >= 1e-137 rad, and nothing
+//                                      fails for |phi0| >= 1e-100 at any s
 // Exactly collinear template points (the code's own test, NoInitialParameters) never panic.
 // The class is therefore:  the template points are not collinear in the sense of the code, and the circle through them
-// has radius R >= R_CLASS = 1e136 m (1.5 decades below the smallest failing radius seen).  Sets with R just below
-// (1e129 <= R < 1e136 m, label `guard`) are ordinary cases that must hold.
+// has radius R >= R_CLASS = 1e136 m (1.5 decades below the smallest failing radius seen; the boundary is fuzzy because
+// it depends on where Nelder-Mead wanders in at most 100 iterations).  Sets with R just below (1e129 <= R < 1e136 m,
+// label `guard`) are ordinary cases that must hold.
 pub const R_CLASS: f64 = 1e136;
 
 /// Veltkamp / Dekker: the rounding error of the product p = fl(a * b), by plain f64 operations (no fma), so that the
